@@ -36,6 +36,8 @@ func newHeapSubj[T comparable](cfg Cfg, d *Dom[T]) *heapSubj[T] {
 			hp, q = binaryheap.New[int](), priorityqueue.New[int]()
 		case string:
 			hp, q = binaryheap.New[string](), priorityqueue.New[string]()
+		case float64:
+			hp, q = binaryheap.New[float64](), priorityqueue.New[float64]()
 		}
 		if h, ok := hp.(*binaryheap.Heap[T]); ok && cfg.Kind == "binaryheap" {
 			s.c, s.push, s.pop = h, h.Push, h.Pop
@@ -196,7 +198,7 @@ func (s *heapSubj[T]) Step(op Op, o *Oracle) {
 		}
 		s.judgeMin(o, op.N, v, ok)
 		if op.N == "Pop" && ok {
-			if i := slices.Index(s.m, v); i >= 0 {
+			if i := s.indexOf(v); i >= 0 {
 				s.m = slices.Delete(slices.Clone(s.m), i, i+1)
 			}
 		}
@@ -244,7 +246,7 @@ func (s *heapSubj[T]) judgeMin(o *Oracle, what string, v T, ok bool) {
 		}
 		return
 	}
-	if !slices.Contains(s.m, v) {
+	if s.indexOf(v) < 0 {
 		o.Fail("C06", "not-a-member", "%s returned %s which is not a member; members %s", what, s.d.Str(v), joinS(s.m, s.d.Str))
 		return
 	}
@@ -282,14 +284,14 @@ func (s *heapSubj[T]) check(o *Oracle) {
 		if got := s.c.Size(); got != len(s.m) {
 			o.Fail(tag, "size", "after %s: Size()=%d, multiset has %d", o.cur, got, len(s.m))
 		}
-		if !isPermutation(vals, s.m) {
+		if !s.samePerm(vals) {
 			o.Fail(tag, "values-multiset", "after %s: Values()=%s is not a permutation of the pushed-minus-popped multiset %s", o.cur, joinS(vals, s.d.Str), joinS(s.m, s.d.Str))
 		}
 		pv, pok := s.c.Peek()
 		if tag == "C06" {
 			s.judgeMin(o, "Peek", pv, pok)
 		}
-		if pok && len(vals) > 0 && vals[0] != pv {
+		if pok && len(vals) > 0 && s.d.Str(vals[0]) != s.d.Str(pv) {
 			o.Fail(tag, "values-first-is-peek", "after %s: Values()[0]=%s but Peek()=%s", o.cur, s.d.Str(vals[0]), s.d.Str(pv))
 		}
 		var itv []T
@@ -299,9 +301,9 @@ func (s *heapSubj[T]) check(o *Oracle) {
 				break
 			}
 		}
-		if !isPermutation(itv, s.m) {
+		if !s.samePerm(itv) {
 			o.Fail(tag, "iterator-multiset", "after %s: iteration %s is not a permutation of %s", o.cur, joinS(itv, s.d.Str), joinS(s.m, s.d.Str))
-		} else if pok && len(itv) > 0 && itv[0] != pv {
+		} else if pok && len(itv) > 0 && s.d.Str(itv[0]) != s.d.Str(pv) {
 			o.Fail(tag, "iterator-first-is-peek", "after %s: first iterated element %s but Peek()=%s", o.cur, s.d.Str(itv[0]), s.d.Str(pv))
 		}
 	}
@@ -319,7 +321,7 @@ func (s *heapSubj[T]) FinalDrain(o *Oracle) {
 		}
 		out = append(out, v)
 	}
-	if !isPermutation(out, s.m) {
+	if !s.samePerm(out) {
 		o.Fail("C06", "drain-multiset", "draining yielded %s, members were %s", joinS(out, s.d.Str), joinS(s.m, s.d.Str))
 	}
 	for i := 1; i < len(out); i++ {
@@ -479,4 +481,34 @@ func heapFill(a []int) []int {
 		idx = idx[:200]
 	}
 	return idx
+}
+
+// indexOf and samePerm identify elements by their exact rendering, not by ==: for floats == conflates
+// -0 and +0, which a sign-aware comparator tells apart.
+func (s *heapSubj[T]) indexOf(v T) int {
+	k := s.d.Str(v)
+	for i, x := range s.m {
+		if s.d.Str(x) == k {
+			return i
+		}
+	}
+	return -1
+}
+
+func (s *heapSubj[T]) samePerm(xs []T) bool {
+	if len(xs) != len(s.m) {
+		return false
+	}
+	cnt := map[string]int{}
+	for _, x := range s.m {
+		cnt[s.d.Str(x)]++
+	}
+	for _, x := range xs {
+		k := s.d.Str(x)
+		cnt[k]--
+		if cnt[k] < 0 {
+			return false
+		}
+	}
+	return true
 }
